@@ -19,6 +19,7 @@ import (
 
 // descVal describes the provenance of any value (bytes or scalar) without lattice information.
 var descDepth int
+var descInLayout bool
 var descPhiSeen = map[*ssa.Phi]bool{}
 
 func descVal(v ssa.Value) string {
@@ -199,8 +200,26 @@ func descAddr(v ssa.Value) string {
 				return descVal(only)
 			}
 		}
-		if x.Comment != "" {
-			return "local:" + x.Comment
+		// a byte buffer filled at constant offsets (copy / PutUint / stores) is described by its layout
+		if pt, ok := x.Type().Underlying().(*types.Pointer); ok {
+			if at, ok := pt.Elem().Underlying().(*types.Array); ok && at.Len() > 0 && at.Len() <= 128 && !descInLayout {
+				if b, ok := at.Elem().Underlying().(*types.Basic); ok && b.Kind() == types.Uint8 {
+					descInLayout = true
+					lay := layoutOf(x, at.Len())
+					descInLayout = false
+					interesting := false
+					for _, l := range lay {
+						if !strings.HasPrefix(l, "\"") || strings.Trim(l, "\"\\x0") != "" {
+							interesting = true
+						}
+					}
+					if lay != nil && interesting {
+						return "[" + strings.Join(lay, " ") + "]"
+					}
+				}
+			}
+			// name-free description: renaming a local changes nothing
+			return "local:" + short(types.TypeString(pt.Elem(), nil))
 		}
 		return "local"
 	case *ssa.Global:
